@@ -267,6 +267,10 @@ class PTable(EngineBase):
             if r < 0.92:
                 return {"op": "is_running_y", "i": rng.randrange(64)}
             if world.get("overlap"):
+                if rng.random() < 0.35:
+                    # the oldest abandoned iterator is finalised now (its
+                    # copy of the cache is committed)
+                    return {"op": "close_iter"}
                 return {"op": "open_iter", "consume": rng.choice([1, 2])}
             return {"op": "iter", "consume": None}
         if prop == "C05":
@@ -322,6 +326,39 @@ class PTable(EngineBase):
                                and rng.random() < 0.6 else
                                rng.choice([0, 0, 1, 1, 2, 3, 5]),
                                "ev": self.gen_event(rng, world, prop)})
+        if prop == "C04" and rng.random() < 0.2:
+            # targeted shape: a cached PID is recycled and found out by
+            # is_running() while an abandoned iterator is (or is not) still
+            # open, with cache_clear() / further iterations in between
+            live = [p["pid"] for p in world["procs"] if p["pid"] > 1]
+            if live:
+                x = rng.choice(live)
+                seq = [{"op": "iter", "consume": None},
+                       {"op": "ev", "ev": self.new_proc_ev(
+                           rng, x, world["pool"], "reuse")}]
+                opened = rng.random() < 0.7
+                if opened:
+                    seq.append({"op": "open_iter",
+                                "consume": rng.choice([1, 2])})
+                seq.append({"op": "is_running_y", "i": 0, "pid": x})
+                if rng.random() < 0.3:
+                    seq.append({"op": "iter", "consume": None})
+                if rng.random() < 0.5:
+                    seq.append({"op": "cache_clear"})
+                if rng.random() < 0.2:
+                    seq.append({"op": "open_iter", "consume": 1})
+                    seq.append({"op": "close_iter"})
+                if opened:
+                    seq.append({"op": "close_iter"})
+                seq += [{"op": "iter", "consume": None},
+                        {"op": "iter", "consume": None}]
+                at = rng.randrange(0, min(6, len(ops)) + 1)
+                shift = len(seq)
+                for e in inside:
+                    if e["op_id"] >= at:
+                        e["op_id"] += shift
+                ops[at:at] = seq
+                world["overlap"] = True
         for j, op in enumerate(ops):
             op["id"] = j
         return {"prop": prop, "world": world, "ops": ops, "inside": inside}
@@ -368,6 +405,7 @@ class PTable(EngineBase):
         pool = world["pool"]
         st = {"handles": [], "viol": [], "steps": 0, "boot_calls_after_step":
               0, "yielded": [], "iters": [], "open_gens": [], "keys": set(),
+              "flag_overlap": set(),
               "probes": {}, "flagged": {}, "last_complete": None,
               "cleared": False, "all_yielded_ids": {}, "sample": [],
               "obj_inc": {}, "pre_clear": {}, "pid_hist": {}, "skipped": {}}
@@ -573,10 +611,18 @@ class PTable(EngineBase):
                     break
             g.close()
             return ("partial", got)
+        if kind == "close_iter":
+            if not st["open_gens"]:
+                return "no-gen"
+            st["open_gens"].pop(0).close()
+            st["probe"]("abandoned_iterator_closed")
+            return "closed"
         if kind == "is_running_y":
             ys = st["yielded"]
             if not ys:
                 return None
+            if "pid" in op:
+                ys = [y for y in ys if y.pid == op["pid"]] or ys
             o = ys[op["i"] % len(ys)]
             return ("y", o, o.is_running())
         h = self._handle(st, op.get("h", 0))
@@ -1001,6 +1047,11 @@ class PTable(EngineBase):
                     lst = k.snap_at(a[7])
                     break
             overlapping = bool(st["open_gens"]) or kind == "open_iter"
+            if overlapping:
+                # an iteration that starts while another one is unfinished
+                # and a recycled-PID notice is pending: whichever commits
+                # last wins (lost update, KF-C04-4)
+                st["flag_overlap"].update(st["flagged"])
             if pl != sorted(pl):
                 self._V(st, "C04.iter_order", [], "process_iter",
                         "yield order %r is not ascending" % pl)
@@ -1096,11 +1147,14 @@ class PTable(EngineBase):
                 # recycled entries refreshed
                 for pid, old in list(st["flagged"].items()):
                     if pid in now_ids and now_ids[pid] is old:
-                        self._V(st, "C04.recycled_refreshed", ["old_object"],
+                        self._V(st, "C04.recycled_refreshed", ["old_object"]
+                                + (["overlapping_iterations_after_flag"]
+                                   if pid in st["flag_overlap"] else []),
                                 "process_iter", "object flagged recycled for "
                                 "pid %d was yielded again" % pid)
                     if lst is not None and pid in lst:
                         del st["flagged"][pid]
+                        st["flag_overlap"].discard(pid)
                 # entries skipped because the process vanished while
                 # iterating must be dropped from the cache
                 if lst is not None:
@@ -1118,7 +1172,10 @@ class PTable(EngineBase):
                     for pid, old in st["flagged"].items():
                         if pid in now_ids and now_ids[pid] is old:
                             self._V(st, "C04.recycled_refreshed",
-                                    ["old_object"], "process_iter",
+                                    ["old_object"] + (
+                                        ["overlapping_iterations_after_flag"]
+                                        if pid in st["flag_overlap"] else []),
+                                    "process_iter",
                                     "object flagged recycled for pid %d was "
                                     "yielded again" % pid)
             if not overlapping:
